@@ -51,7 +51,37 @@ Definition num_enum_leaf (p : schema) : Prop :=
   exists c ns, p = Sch c [] None false None [] [] /\ c_types c = [SNumber] /\ c_ref c = None /\ c_enum c = Some (map JNum ns) /\ ns <> [] /\
                c_default c = None /\ c_format c = None /\ has_bound_kw (c_mult c) (c_bounds c) = false.
 
-Definition leaf (p : schema) : Prop := str_leaf p \/ int_leaf p \/ bool_leaf p \/ num_leaf p \/ arr_leaf p \/ enum_leaf p \/ map_leaf p \/ int_enum_leaf p \/ num_enum_leaf p.
+(* boolean enums (C08): {"type": "boolean", "enum": [booleans]} with no other keyword *)
+Definition bool_enum_leaf (p : schema) : Prop :=
+  exists c bs, p = Sch c [] None false None [] [] /\ c_types c = [SBoolean] /\ c_ref c = None /\ c_enum c = Some (map JBool bs) /\ bs <> [] /\
+               c_default c = None /\ c_format c = None.
+
+Definition leaf (p : schema) : Prop := str_leaf p \/ int_leaf p \/ bool_leaf p \/ num_leaf p \/ arr_leaf p \/ enum_leaf p \/ map_leaf p \/ int_enum_leaf p \/ num_enum_leaf p \/ bool_enum_leaf p.
+
+Lemma rmap_ev_bools (bs : list bool) : rmap (fun v => match ev_of_json v with Some e => Done e | None => GUnmod end) (map JBool bs) = Done (map EVBool bs).
+Proof. induction bs as [|v r IH]; [reflexivity|]. cbn [map rmap ev_of_json rbind]. rewrite IH. reflexivity. Qed.
+
+Lemma gen_bool_enum_leaf f self sc p ty bp : bool_enum_leaf p -> gen (S f) MInline self false p sc = Done (ty, bp) ->
+  exists bs, c_enum (s_con p) = Some (map JBool bs) /\ ty = TEnum sc TBool false (map EVBool bs) /\ bp = c_bounds (s_con p).
+Proof.
+  intros (c & bs & -> & Ht & Hr & He & Hne & _ & Hf) H. exists bs. cbn [s_con]. split; [exact He|].
+  cbn [Gen.gen s_con] in H. rewrite He in H.
+  destruct f as [|f]; [discriminate|]. cbn [Gen.gen s_con] in H. rewrite He in H.
+  destruct f as [|f]; [discriminate|]. cbn [Gen.gen s_con] in H. rewrite He, Ht in H.
+  destruct bs as [|v0 vr]; [contradiction Hne; reflexivity|]. cbn [map] in H.
+  unfold primitive in H. cbn [rbind wrap_ptr] in H.
+  change (JBool v0 :: map JBool vr) with (map JBool (v0 :: vr)) in H. rewrite rmap_ev_bools in H. cbn [sty_eqb] in H. inversion H. split; reflexivity.
+Qed.
+
+Lemma existsb_json_bools b bs : existsb (json_eqb (JBool b)) (map JBool bs) = existsb (enum_eq TBool (GB b)) (map EVBool bs).
+Proof. induction bs as [|v r IH]; [reflexivity|]. cbn [map existsb]. rewrite IH. reflexivity. Qed.
+
+Lemma valid_bool_enum_leaf fv p x bs : bool_enum_leaf p -> c_enum (s_con p) = Some (map JBool bs) ->
+  valid (S fv) p x = match x with JBool b => existsb (json_eqb x) (map JBool bs) | _ => false end.
+Proof.
+  intros (c & bs0 & -> & Ht & Hr & He0 & _ & _ & Hf) He. cbn [s_con] in He. cbn [Valid.valid s_con s_all_of s_any_of]. rewrite Hr, Ht, He. cbn [type_ok existsb forallb].
+  destruct x; cbn [type_matches orb andb]; try reflexivity. rewrite ?andb_true_r, ?orb_false_r. reflexivity.
+Qed.
 
 Lemma rmap_ev_nums (ns : list num) : rmap (fun v => match ev_of_json v with Some e => Done e | None => GUnmod end) (map JNum ns) = Done (map (fun n => EVFloat (nq n)) ns).
 Proof. induction ns as [|v r IH]; [reflexivity|]. cbn [map rmap ev_of_json rbind]. rewrite IH. reflexivity. Qed.
@@ -474,9 +504,40 @@ Proof.
     unfold field_ok. cbn [fst snd f_json f_ty f_name field_validators]. rewrite Hl. reflexivity.
 Qed.
 
+Lemma dec_tenum_bool fd sc es x : dec (S (S fd)) (TEnum sc TBool false es) x =
+  obind (dec (S fd) TBool x) (fun v => if existsb (enum_eq TBool v) es then Ok v else Err).
+Proof. reflexivity. Qed.
+Lemma dec_tbool fd y : dec (S fd) TBool y = match y with JBool b => Ok (GB b) | JNull => Ok (GB false) | _ => Err end.
+Proof. reflexivity. Qed.
+
+Lemma bool_enum_field fd fv c self fname k p bs kv sc :
+  bool_enum_leaf p -> c_enum (s_con p) = Some (map JBool bs) -> fname <> [] ->
+  match lookup k kv with
+  | Some x => x <> JNull ->
+      field_ok (dec (S (S (S fd)))) zero (default_val env dv_fuel) kv (pair_of (make_field defs c self fname k p (TEnum sc TBool false (map EVBool bs)) (c_bounds (s_con p)))) = valid (S fv) p x
+  | None => mem k (c_required c) = false ->
+      field_ok (dec (S (S (S fd)))) zero (default_val env dv_fuel) kv (pair_of (make_field defs c self fname k p (TEnum sc TBool false (map EVBool bs)) (c_bounds (s_con p)))) = true
+  end.
+Proof.
+  intros Hleaf He Hn. destruct (lookup k kv) as [x|] eqn:Hl.
+  - intros Hnull. rewrite (valid_bool_enum_leaf fv p x bs Hleaf He). destruct Hleaf as (pc & bs0 & -> & Ht & Hr & He0 & _ & Hd & _). unfold make_field, pair_of. cbn [s_con]. rewrite Hd.
+    destruct (mem k (c_required c)).
+    + unfold field_ok. cbn [fst snd f_json f_ty f_name field_validators]. rewrite Hl, dec_tenum_bool, dec_tbool.
+      destruct x; try contradiction; cbn [obind]; try reflexivity.
+      rewrite existsb_json_bools. destruct (existsb (enum_eq TBool (GB b)) _); reflexivity.
+    + cbn [nillable_ty]. unfold field_ok. cbn [fst snd f_json f_ty f_name field_validators]. rewrite Hl.
+      assert (Hp : dec (S (S (S fd))) (TPtr (TEnum sc TBool false (map EVBool bs))) x =
+                   match x with JNull => Ok GNil | _ => obind (dec (S (S fd)) (TEnum sc TBool false (map EVBool bs)) x) (fun v => Ok (GP v)) end) by reflexivity.
+      rewrite Hp, dec_tenum_bool, dec_tbool.
+      destruct x; try contradiction; cbn [obind]; try reflexivity.
+      rewrite existsb_json_bools. destruct (existsb (enum_eq TBool (GB b)) _); reflexivity.
+  - intros Hm. destruct Hleaf as (pc & bs0 & -> & Ht & Hr & He0 & _ & Hd & _). unfold make_field, pair_of. cbn [s_con]. rewrite Hd, Hm. cbn [nillable_ty].
+    unfold field_ok. cbn [fst snd f_json f_ty f_name field_validators]. rewrite Hl. reflexivity.
+Qed.
+
 Lemma leaf_default_none p : leaf p -> c_default (s_con p) = None.
 Proof.
-  intros [Hl|[Hl|[Hl|[Hl|[Hl|[Hl|[Hl|[Hl|Hl]]]]]]]].
+  intros [Hl|[Hl|[Hl|[Hl|[Hl|[Hl|[Hl|[Hl|[Hl|Hl]]]]]]]]].
   - destruct Hl as (c & -> & _ & _ & _ & Hd & _); exact Hd.
   - destruct Hl as (c & m & -> & _ & _ & _ & Hd & _); exact Hd.
   - destruct Hl as (c & -> & _ & _ & _ & Hd); exact Hd.
@@ -486,6 +547,7 @@ Proof.
   - destruct Hl as (ik & c & a & -> & _ & _ & _ & Hd & _); exact Hd.
   - exact (int_enum_default_none p Hl).
   - destruct Hl as (c & ns & -> & _ & _ & _ & _ & Hd & _); exact Hd.
+  - destruct Hl as (c & bs & -> & _ & _ & _ & _ & Hd & _); exact Hd.
 Qed.
 
 Lemma ref_default_none p x : ref_prop p x -> c_default (s_con p) = None.
@@ -524,7 +586,7 @@ Proof.
   - intros fname k p ty bp Hin Hgen.
     assert (Hinp : In (k, p) (s_props s)) by (unfold prop_names in Hin; apply in_combine_r in Hin; rewrite sort_props_In in Hin; exact Hin).
     pose proof (Hne _ _ Hin) as Hfn.
-    destruct (Hprops k p Hinp) as [[Hl|[Hl|[Hl|[Hl|[Hl|[Hl|[Hl|[Hl|Hl]]]]]]]]|[Hoth _]].
+    destruct (Hprops k p Hinp) as [[Hl|[Hl|[Hl|[Hl|[Hl|[Hl|[Hl|[Hl|[Hl|Hl]]]]]]]]]|[Hoth _]].
     + rewrite (gen_str_leaf idf cf defs f self _ p Hl) in Hgen. inversion Hgen; subst ty bp.
       destruct (lookup k kv) as [x|] eqn:El.
       * destruct (Hval k p x Hinp El) as [Hnn [Hstr _]]. apply str_field_present; [exact Hl|exact Hfn|exact El|split; [exact Hnn|exact (Hstr Hl)]].
@@ -565,6 +627,11 @@ Proof.
       * exact Hb.
     + destruct (gen_num_enum_leaf f self _ p ty bp Hl Hgen) as (ns & Hev & -> & ->).
       pose proof (num_enum_field fd (S fv) (s_con s) self fname k p ns kv (scope ++ fname) Hl Hev Hfn) as Hb.
+      destruct (lookup k kv) as [x|] eqn:El.
+      * destruct (Hval k p x Hinp El) as [Hnn _]. exact (Hb Hnn).
+      * exact Hb.
+    + destruct (gen_bool_enum_leaf f self _ p ty bp Hl Hgen) as (bs & Hev & -> & ->).
+      pose proof (bool_enum_field fd (S fv) (s_con s) self fname k p bs kv (scope ++ fname) Hl Hev Hfn) as Hb.
       destruct (lookup k kv) as [x|] eqn:El.
       * destruct (Hval k p x Hinp El) as [Hnn _]. exact (Hb Hnn).
       * exact Hb.
@@ -621,7 +688,7 @@ Proof. destruct n; cbn [sobj]; intros (Pp & Pty & Pa & _); (split; [exact Pp|spl
 
 Lemma leaf_not_object p : leaf p -> plain_object p -> c_types (s_con p) = [SObject] -> False.
 Proof.
-  intros Hl (_ & _ & _ & Hprops & _) Pty. destruct Hl as [Hl|[Hl|[Hl|[Hl|[Hl|[Hl|[Hl|[Hl|Hl]]]]]]]].
+  intros Hl (_ & _ & _ & Hprops & _) Pty. destruct Hl as [Hl|[Hl|[Hl|[Hl|[Hl|[Hl|[Hl|[Hl|[Hl|Hl]]]]]]]]].
   - destruct Hl as (c0 & -> & Ht & _). cbn [s_con] in Pty; rewrite Ht in Pty; discriminate.
   - destruct Hl as (c0 & m0 & -> & Ht & _). cbn [s_con] in Pty; rewrite Ht in Pty; discriminate.
   - destruct Hl as (c0 & -> & Ht & _). cbn [s_con] in Pty; rewrite Ht in Pty; discriminate.
@@ -631,14 +698,15 @@ Proof.
   - destruct Hl as (ik0 & c0 & a0 & -> & _). apply Hprops. reflexivity.
   - destruct Hl as (c0 & l0 & -> & Ht & _). cbn [s_con] in Pty; rewrite Ht in Pty; discriminate.
   - destruct Hl as (c0 & ns0 & -> & Ht & _). cbn [s_con] in Pty; rewrite Ht in Pty; discriminate.
+  - destruct Hl as (c0 & bs0 & -> & Ht & _). cbn [s_con] in Pty; rewrite Ht in Pty; discriminate.
 Qed.
 
 Lemma leaf_not_ref p x : leaf p -> ref_prop p x -> False.
 Proof.
   intros Hl (c & E & Hr & _). subst p.
-  destruct Hl as [Hl|[Hl|[Hl|[Hl|[Hl|[Hl|[Hl|[Hl|Hl]]]]]]]];
+  destruct Hl as [Hl|[Hl|[Hl|[Hl|[Hl|[Hl|[Hl|[Hl|[Hl|Hl]]]]]]]]];
     [destruct Hl as (c0 & E & _ & Hr0 & _)|destruct Hl as (c0 & m0 & E & _ & Hr0 & _)|destruct Hl as (c0 & E & _ & Hr0 & _)|destruct Hl as (c0 & E & _ & Hr0 & _)|destruct Hl as (ik0 & c0 & it0 & E & _ & Hr0 & _)
-    |destruct Hl as (c0 & vs0 & E & _ & Hr0 & _)|destruct Hl as (ik0 & c0 & a0 & E & _ & Hr0 & _)|destruct Hl as (c0 & l0 & E & _ & Hr0 & _)|destruct Hl as (c0 & ns0 & E & _ & Hr0 & _)];
+    |destruct Hl as (c0 & vs0 & E & _ & Hr0 & _)|destruct Hl as (ik0 & c0 & a0 & E & _ & Hr0 & _)|destruct Hl as (c0 & l0 & E & _ & Hr0 & _)|destruct Hl as (c0 & ns0 & E & _ & Hr0 & _)|destruct Hl as (c0 & bs0 & E & _ & Hr0 & _)];
     inversion E; subst; congruence.
 Qed.
 
@@ -1114,7 +1182,7 @@ Proof.
   - intros k [H|[]]. subst. left; reflexivity.
   - vm_compute. repeat constructor. intros [].
   - intros fname kp H. vm_compute in H. destruct H as [H|[]]; inversion H; subst; discriminate.
-  - intros k p [H|[]]; inversion H; subst. left. do 8 right. exact ex_ratio_leaf.
+  - intros k p [H|[]]; inversion H; subst. left. do 8 right. left. exact ex_ratio_leaf.
 Qed.
 
 Example num_enum_inhabited :
@@ -1131,6 +1199,46 @@ Proof.
   cbn [dok]. split; [destruct Hkv as [<-|[<-|[<-|[<-|[<-|[]]]]]]; repeat constructor; cbn; intuition discriminate|].
   intros k p x Hin Hl. destruct Hin as [Hin|[]]. inversion Hin; subst k p.
   split; [destruct Hkv as [<-|[<-|[<-|[<-|[<-|[]]]]]]; vm_compute in Hl; inversion Hl; discriminate|].
+  split; [intros (c & E & Ht & _); inversion E; subst c; discriminate|].
+  split; [intros (c & m & E & Ht & _); inversion E; subst c; discriminate|].
+  split; [intros (ik & c & it & E & _); inversion E|]. split; [intros (ik & c & a & E & _); inversion E|].
+  split; [intros (c & l & E & Ht & _); inversion E; subst c; discriminate|exact I].
+Qed.
+
+(* ---------- non-vacuity of the boolean-enum leaf: {on: boolean enum [true] (required)} ---------- *)
+Definition ex_flag : schema :=
+  Sch (mkC [SBoolean] None (Some (map JBool [true])) [] 0 0 0 0 None None (mkBounds None None None None) None None) [] None false None [] [].
+Definition ex_be_obj : schema :=
+  Sch (mkC [SObject] None None [[111]%N] 0 0 0 0 None None (mkBounds None None None None) None None) [([111]%N, ex_flag)] None false None [] [].
+Definition ex_be_docs : list (list (str * json)) := [[([111]%N, JBool true)]; [([111]%N, JBool false)]; [([111]%N, JStr [120]%N)]; []].
+
+Lemma ex_flag_leaf : bool_enum_leaf ex_flag.
+Proof. eexists. eexists. repeat split; try reflexivity; discriminate. Qed.
+
+Lemma ex_be_sobj : sobj (fun s => s) (mkCfg false false) [] [] [] 0 ex_be_obj.
+Proof.
+  cbn [sobj]. repeat split; try reflexivity; try discriminate.
+  - repeat constructor. intros [].
+  - intros k [H|[]]. subst. left; reflexivity.
+  - vm_compute. repeat constructor. intros [].
+  - intros fname kp H. vm_compute in H. destruct H as [H|[]]; inversion H; subst; discriminate.
+  - intros k p [H|[]]; inversion H; subst. left. do 9 right. exact ex_flag_leaf.
+Qed.
+
+Example bool_enum_inhabited :
+  exists t b, Gen.gen (fun s => s) (mkCfg false false) [] (fuelG 0 2) MDeclared None false ex_be_obj [82]%N = Done (t, b) /\
+    (forall kv, In kv ex_be_docs ->
+       is_ok (Exec.dec (fun _ _ => true) [] (fuelD 0 0) t (JObj kv)) = Valid.valid (fun _ _ => true) [] (fuelV 0 0) ex_be_obj (JObj kv)) /\
+    map (fun kv => Valid.valid (fun _ _ => true) [] (fuelV 0 0) ex_be_obj (JObj kv)) ex_be_docs = [true; false; false; false].
+Proof.
+  eexists. eexists. split; [vm_compute; reflexivity|].
+  assert (Hgen : Gen.gen (fun s => s) (mkCfg false false) [] (fuelG 0 2) MDeclared None false ex_be_obj [82]%N = Done _) by (vm_compute; reflexivity).
+  split; [|vm_compute; reflexivity].
+  intros kv Hkv.
+  eapply (nested_object_exact (fun s => s) (mkCfg false false) [] (fun _ _ => true) [] [] eq_refl eq_refl 0 2 0 0 None false ex_be_obj [82]%N _ _ kv); [discriminate|exact ex_be_sobj| |exact Hgen].
+  cbn [dok]. split; [destruct Hkv as [<-|[<-|[<-|[<-|[]]]]]; repeat constructor; cbn; intuition discriminate|].
+  intros k p x Hin Hl. destruct Hin as [Hin|[]]. inversion Hin; subst k p.
+  split; [destruct Hkv as [<-|[<-|[<-|[<-|[]]]]]; vm_compute in Hl; inversion Hl; discriminate|].
   split; [intros (c & E & Ht & _); inversion E; subst c; discriminate|].
   split; [intros (c & m & E & Ht & _); inversion E; subst c; discriminate|].
   split; [intros (ik & c & it & E & _); inversion E|]. split; [intros (ik & c & a & E & _); inversion E|].
